@@ -18,8 +18,8 @@ import (
 
 	"github.com/containerd/nri/pkg/api"
 	cfgapi "github.com/containers/nri-plugins/pkg/apis/config/v1alpha1"
-	libmem "github.com/containers/nri-plugins/pkg/resmgr/lib/memory"
 	"github.com/containers/nri-plugins/pkg/kubernetes"
+	libmem "github.com/containers/nri-plugins/pkg/resmgr/lib/memory"
 	"github.com/containers/nri-plugins/pkg/utils/cpuset"
 	"github.com/containers/nri-plugins/pkg/verif/mc"
 	"github.com/containers/nri-plugins/pkg/verif/sysgen"
@@ -28,15 +28,15 @@ import (
 type sysgenCPU = sysgen.CPU
 
 const (
-	annNS            = "resource-policy.nri.io"
-	annPreserveCPU   = "cpu.preserve." + annNS
-	annPreserveMem   = "memory.preserve." + annNS
-	annPreferShared  = "prefer-shared-cpus." + annNS
-	annPreferIsol    = "prefer-isolated-cpus." + annNS
-	annPreferRsvd    = "prefer-reserved-cpus." + annNS
-	annHideHT        = "hide-hyperthreads." + annNS
-	annMemType       = "memory-type." + annNS
-	annBalloon       = "balloon.balloons." + annNS
+	annNS           = "resource-policy.nri.io"
+	annPreserveCPU  = "cpu.preserve." + annNS
+	annPreserveMem  = "memory.preserve." + annNS
+	annPreferShared = "prefer-shared-cpus." + annNS
+	annPreferIsol   = "prefer-isolated-cpus." + annNS
+	annPreferRsvd   = "prefer-reserved-cpus." + annNS
+	annHideHT       = "hide-hyperthreads." + annNS
+	annMemType      = "memory-type." + annNS
+	annBalloon      = "balloon.balloons." + annNS
 )
 
 func parseSet(s string) cpuset.CPUSet {
@@ -879,7 +879,6 @@ func (x *exec) preserveRuleMatches(c *wctr) bool {
 	return false
 }
 
-
 // ---------------------------------------------------------------------------
 // C04
 
@@ -992,7 +991,6 @@ func oracleC04(x *exec, v *viols, pre, post *snap, rp *reply) {
 		}
 	}
 }
-
 
 // ---------------------------------------------------------------------------
 // C12
@@ -1108,7 +1106,6 @@ func (x *exec) cpuOptedOutUnder(c *wctr, cfgIdx int) bool {
 	x.w.cfgIdx = saved
 	return o
 }
-
 
 // ---------------------------------------------------------------------------
 // C13
@@ -1294,7 +1291,6 @@ func twinC13(pd *propDef) func(w *mc.Worker, s *scenario, dir string, trace []st
 	}
 }
 
-
 // ---------------------------------------------------------------------------
 // C11
 
@@ -1402,7 +1398,6 @@ func oracleC11(x *exec, v *viols, pre, post *snap, rp *reply) {
 	}
 }
 
-
 // ---------------------------------------------------------------------------
 // C14
 
@@ -1422,7 +1417,9 @@ func probeC14(w *mc.Worker, s *scenario, dir string, trace []string, x *exec, po
 		fn   func()
 	}{
 		{"RunPodSandbox", func() { err = p.RunPodSandbox(ctx, pod.nri()) }},
-		{"CreateContainer", func() { _, _, err = p.CreateContainer(ctx, pod.nri(), c.nri(api.ContainerState_CONTAINER_CREATED, res{})) }},
+		{"CreateContainer", func() {
+			_, _, err = p.CreateContainer(ctx, pod.nri(), c.nri(api.ContainerState_CONTAINER_CREATED, res{}))
+		}},
 		{"StartContainer", func() { err = p.StartContainer(ctx, pod.nri(), c.nri(api.ContainerState_CONTAINER_RUNNING, res{})) }},
 		{"StopContainer", func() { _, err = p.StopContainer(ctx, pod.nri(), c.nri(api.ContainerState_CONTAINER_RUNNING, res{})) }},
 		{"RemoveContainer", func() { err = p.RemoveContainer(ctx, pod.nri(), c.nri(api.ContainerState_CONTAINER_STOPPED, res{})) }},
